@@ -210,6 +210,8 @@ def wSoup : Except Err Heap :=
     [.append 0 (.node 1), .append 0 (.node 2), .append 3 (.node 4), .append 3 (.node 5)]
 example : (wSoup.bind fun h => (insert h 0 1 [.node 3]).map (fun r => (r.1.kids 0, r.1.kids 3, r.2))).toOption
     = some ([1, 4, 5, 2], [], [4, 5]) := by decide
+-- the same element twice in a row (`x.insert_after(y, y)`): once, in place — not an error (repaired; formerly ValueError after `y` had been extracted)
+example : (wFour.bind fun h => (insertAfter h 2 [.node 4, .node 4, .node 1]).map (·.kids 0)).toOption = some [2, 4, 1, 3] := by decide
 def wFive : Except Err Heap :=
   run (Heap.init [.tag, .tag, .tag, .tag, .tag, .tag])
     [.append 0 (.node 1), .append 0 (.node 2), .append 0 (.node 3), .append 5 (.node 4)]
